@@ -285,6 +285,7 @@ func runC03(args []string) int {
 	full := fs.Bool("full", false, "full enumerated product (thorough)")
 	seed := fs.Int64("seed", 1, "PRNG seed")
 	out := fs.String("out", "", "observation file")
+	wire := fs.Int("wire", 0, "messages sent through a live connection and compared on the socket")
 	fs.Parse(args)
 	w, err := rec.Create(*out)
 	if err != nil {
@@ -382,6 +383,12 @@ func runC03(args []string) int {
 	w.Emit(observeCtl(r, "SelectRsp", 1, 0, sb4(1), hsms.NewDeselectReq(1, sb4(1)), 0, 0))
 	w.Emit(observeCtl(r, "DeselectRsp", 1, 0, sb4(1), hsms.NewSelectReq(1, sb4(1)), 0, 0))
 	w.Emit(observeCtl(r, "LinktestRsp", 1, 0, sb4(1), hsms.NewSelectReq(1, sb4(1)), 0, 0))
+	if *wire > 0 {
+		if err := c03Wire(w, r, *wire); err != nil {
+			fmt.Fprintln(os.Stderr, "wire:", err)
+			return 2
+		}
+	}
 	if err := w.Close(); err != nil {
 		fmt.Fprintln(os.Stderr, err)
 		return 2
